@@ -1437,7 +1437,11 @@ def poll2(ex, st, fv, fptr, cx, cont, out_ty=None):      # noqa: F811  (adds pol
 @pattern(r'^(alloc::|std::)?fmt::format$|^std::fmt::format$|^alloc::fmt::format$')
 def m_fmt_format(ex, st, args, dty, canon):
     fr = st.frames[-1]
-    return Sc(z3.String('fmt!%s:%d:%d' % (fr.fn.text_hash, fr.bb, fr.visits.get(fr.bb, 0))), 'str')
+    nm = 'fmt!%s:%d:%d' % (fr.fn.text_hash, fr.bb, fr.visits.get(fr.bb, 0))
+    a = args[0] if args else None
+    if isinstance(a, Tree) and a.ty == 'fmt::Arguments':
+        st.extra[('fmt', nm)] = a           # what was formatted (template constant and argument values)
+    return Sc(z3.String(nm), 'str')
 
 
 @pattern(r'(^|::)must_use(::<.*>)?$')
@@ -1445,9 +1449,16 @@ def m_must_use(ex, st, args, dty, canon):
     return args[0]
 
 
-@pattern(r'^(core::fmt::rt::)?Argument::<?.*>?::new_(debug|display)(::<.*>)?$|^Argument::new_(debug|display)$|^(core::fmt::)?Arguments::<?.*>?::new(_const|_v1)?(::<.*>)?$|^Arguments::new$')
-def m_fmt_args(ex, st, args, dty, canon):
-    return Tree({}, None, dty)
+@pattern(r'^(core::fmt::rt::)?Argument::<?.*>?::new_(debug|display|lower_hex|upper_hex)(::<.*>)?$|^Argument::new_(debug|display|lower_hex|upper_hex)$')
+def m_fmt_argument(ex, st, args, dty, canon):
+    return Tree({0: ex.snapshot(st, args[0]), 1: Sc(z3.StringVal(canon[3]), 'str')}, None, 'fmt::Argument')
+
+
+@pattern(r'^(core::fmt::)?Arguments::<?.*>?::new(_const|_v1)?(::<.*>)?$|^Arguments::new$')
+def m_fmt_arguments(ex, st, args, dty, canon):
+    tmpl = deref_all(ex, st, args[0]) if args else None
+    arr = deref_all(ex, st, args[1]) if len(args) > 1 else None
+    return Tree({0: tmpl, 1: arr}, None, 'fmt::Arguments')
 
 
 @pattern(r'^(std::string::)?String::is_empty$|^<impl str>::is_empty$|^core::str::<impl str>::is_empty$')
@@ -1516,3 +1527,40 @@ def m_str_split_char(ex, st, args, dty, canon):
                 return f
             alts.append((cond, mk()))
     raise Fork(alts)
+
+
+# ------------------------------------------------------------------ vec! lowering, slices, header names
+
+@pattern(r'^Box::<.*>::new_uninit$|^std::boxed::Box::<.*>::new_uninit$')
+def m_box_new_uninit(ex, st, args, dty, canon):
+    p = alloc(ex, st, Tree({}, None, None), 'uninitbox')
+    return Tree({0: Tree({0: p}, None, 'Unique')}, None, dty)
+
+
+@pattern(r'box_assume_init_into_vec_unsafe::<.*>$')
+def m_box_into_vec(ex, st, args, dty, canon):
+    b = args[0]
+    p = ex.child(st, ex.child(st, b, 0, None), 0, None)
+    if not isinstance(p, Ptr):
+        raise Inconclusive('box_assume_init_into_vec_unsafe on %r' % (b,))
+    cell = deref(ex, st, p)
+    arr = ex.child(st, ex.child(st, ex.child(st, cell, 1, None), 0, None), 0, None)
+    n = len([k for k in arr.f if isinstance(k, int)])
+    return mk_vec([arr.f[i] for i in range(n)], dty)
+
+
+@pattern(r'^<impl \[.*\]>::(first|last)$')
+def m_slice_first(ex, st, args, dty, canon):
+    p = as_ptr(ex, st, args[0], 'slice::first')
+    v = deref(ex, st, p)
+    n = vec_len(ex, st, v)
+    if n == 0:
+        return none()
+    return some(Ptr(p.cell, p.path + ((0 if canon[3] == 'first' else n - 1),)))
+
+
+@pattern(r'^(http::)?(header::)?HeaderName::as_str$')
+def m_header_name_as_str(ex, st, args, dty, canon):
+    v = deref_all(ex, st, args[0])
+    nm = v.data if isinstance(v, Obj) and v.kind == 'fnitem' else 'header'
+    return Sc(z3.StringVal('<%s>' % nm.split('::')[-1].lower().replace('_', '-')), 'str')
